@@ -23,7 +23,7 @@ func init() {
 	})
 }
 
-var c13Moves = []string{"request", "half-open", "rst-newest", "priority-new", "window-update-new", "headers-open-block", "headers-open-block-malformed", "continuation", "continuation-end", "continuation-unfinished-field", "data-over-limit", "data-over-limit+ES", "data-at-limit+ES", "content-length-over", "request-huge-path", "request-head-and-trailers-each-under-the-limit", "ping", "settings", "finish-oldest", "request-timeout"}
+var c13Moves = []string{"request", "half-open", "rst-newest", "priority-new", "window-update-new", "headers-open-block", "headers-open-block-malformed", "continuation", "continuation-end", "continuation-unfinished-field", "data-over-limit", "data-over-limit+ES", "data-at-limit+ES", "content-length-over", "request-huge-path", "request-head-and-trailers-each-under-the-limit", "ping", "settings", "finish-oldest", "finish-oldest-with-a-body-above-the-connection-window", "request-timeout"}
 
 type c13Case struct {
 	Path  []int    `json:"path"`
@@ -74,7 +74,7 @@ func (x *c13Run) menu() []string {
 			if len(x.h.S.Armed()) == 0 || x.block != 0 {
 				continue
 			}
-		case "finish-oldest":
+		case "finish-oldest", "finish-oldest-with-a-body-above-the-connection-window":
 			has := false
 			for _, c := range x.h.Calls {
 				has = has || !c.Returned
@@ -175,6 +175,14 @@ func (x *c13Run) apply(mv string) {
 		for _, c := range h.Calls {
 			if !c.Returned {
 				h.Finish(c.Idx, harness.Resp{Status: 200, Body: []byte("ok")})
+				break
+			}
+		}
+	case "finish-oldest-with-a-body-above-the-connection-window":
+		// the peer never opens its windows: the response stays half sent, and its stream keeps its slot
+		for _, c := range h.Calls {
+			if !c.Returned {
+				h.Finish(c.Idx, harness.Resp{Status: 200, Body: []byte(valOfLen(70000))})
 				break
 			}
 		}
